@@ -25,12 +25,46 @@ def phase1_cubes(N, M, fixed=None):
     return out
 
 
+def phase1_shape_cube(el):
+    c = {"N": 1 + max(max(e) for e in el), "M": len(el), "fixed": len(el)}
+    for i, (f, t) in enumerate(el):
+        c["ef[%d]" % i] = f
+        c["et[%d]" % i] = t
+    return c
+
+
+def phase1_multigraph_ob(name, tier, alg, panics):
+    q = tier == "quick"
+    ms = multi_shapes(4, 4, 7) if q else multi_shapes(4, 4, 8) + [x for x in multi_shapes(4, 5, 8) if len(set(x)) == 5][::2]
+    return dict(name=name, pkg="internal/phase1", func="Harness_Phase1", consts={"PANICS": panics, "RANDOM": 0, "KNOWN_G1": 0, "ALG": alg},
+                cubes=[phase1_shape_cube(x) for x in ms], maporder="symbolic",
+                bounds="real phase1.Alg.Process (pre-pass, %s breaker, cycle re-check) on MULTIGRAPHS: every simple canonical connected loop-free shape with <= 4 nodes and <= 4 distinct "
+                       "edges, each edge repeated 1..3 times (copies adjacent in the input), at most %s; symbolic: map iteration orders"
+                       % ("greedy" if alg == 0 else "depth-first", "7 edges" if q else "8 edges; plus every 2nd such list with 5 distinct edges"))
+
+
 def shapes(maxN, maxM, selfloops=True, connected=False, **kw):
     out = []
     for N in range(1, maxN + 1):
         for M in range(1, maxM + 1):
             out += edge_lists(N, M, selfloops=selfloops, connected=connected, **kw)
     return out
+
+
+def multi_shapes(maxN, maxD, maxTotal, maxMult=3):
+    """multigraphs: every simple canonical connected loop-free shape with <= maxN nodes and <= maxD distinct edges, each edge
+    repeated 1..maxMult times (the copies adjacent in the input, so the canonical numbering is the shape's), at most maxTotal
+    edges in total and at least one edge repeated (the all-ones vectors are the ordinary shapes)"""
+    import itertools
+    res = []
+    for N in range(2, maxN + 1):
+        for D in range(N - 1, maxD + 1):
+            for el in edge_lists(N, D, selfloops=False, connected=True, simple=True):
+                for mult in itertools.product(range(1, maxMult + 1), repeat=D):
+                    if sum(mult) > maxTotal or max(mult) == 1:
+                        continue
+                    res.append([e for e, k in zip(el, mult) for _ in range(k)])
+    return res
 
 
 def trees(maxN, out=True):
@@ -149,6 +183,13 @@ def C01(tier):
            layout_ob("layout-returns-nspos", "Harness_E_C01", shapes(3, 2) if q else shapes(3, 3), {"P1": [0, 1]},
                      consts={"P2": 0, "P4": 3, "P5": 2, "SZ": 2, "INTSZ": 1, "MAXSZ": 2}, loop=192, enctimeout=nm(q, 100, 400),
                      bounds="canonical edge lists x NetworkSimplex positioner; symbolic integer sizes/spacings in 0..2 (ranks become slice indices)")]
+    # cycle breaking on multigraphs beyond M=4 (in-package, the panic "graph is still cyclic" is raised by phase1.Alg.Process)
+    obs.append(phase1_multigraph_ob("cycle-breaking-returns-multigraphs-greedy", tier, 0, 1))
+    obs.append(phase1_multigraph_ob("cycle-breaking-returns-multigraphs-dfs", tier, 1, 1))
+    if not q:
+        obs.append(layout_ob("layout-returns-multigraphs", "Harness_E_C01", multi_shapes(4, 4, 7), {"P1": [0, 1]},
+                             consts={"P2": 0, "P4": 4, "P5": 2, "SZ": 0, "NSFIX": 10, "LSFIX": 20},
+                             bounds="Layout on multigraphs: simple shapes with <= 4 nodes and <= 4 distinct edges, each repeated 1..3 times, <= 7 edges x {greedy,dfs}, default pipeline, no sizes"))
     return dict(obligations=obs)
 
 
@@ -353,6 +394,11 @@ def C10(tier):
     obs.append(ns_balance_ob(tier))
     obs += ns_whole_obs(tier, ("feasible", "optimal"))
     if not q:
+        # (5,5) with the default (greedy) breaker only: halves the largest class
+        def n_of(c):
+            return 1 + max(max(c["ef[%d]" % i], c["et[%d]" % i]) for i in range(c["M"]))
+        obs[0]["cubes"] = [c for c in obs[0]["cubes"] if not (c["P1"] == 1 and c["M"] == 5 and n_of(c) == 5)]
+        obs[0]["bounds"] += "; the N=5 M=5 class with the greedy breaker only"
         multi = [s for s in shapes(5, 4, selfloops=True) if not is_connected(s, 1 + max(max(e) for e in s))]
         obs.append(layout_ob("layout-ns-optimal-components", "Harness_E_C10", multi, {"P1": [0]},
                              consts={"P2": 0, "P4": 1, "P5": 0, "SZ": 0, "LSFIX": 1, "NSFIX": 1}, bounds="edge lists with >= 2 components and self-loops N<=5 M<=4"))
@@ -481,6 +527,8 @@ def C14(tier):
         obs.append(dict(name="phase1-%s-cubes" % an, pkg="internal/phase1", func="Harness_Phase1", consts=dict(base, ALG=alg),
                         cubes=cubes, maporder="symbolic",
                         bounds="all canonical connected loop-free edge lists with (N,M) in %s as cubes; symbolic: map iteration orders" % grid))
+    obs.append(phase1_multigraph_ob("phase1-dfs-multigraphs", tier, 1, 0))
+    obs.append(phase1_multigraph_ob("phase1-greedy-multigraphs", tier, 0, 0))
     return dict(obligations=obs)
 
 
